@@ -26,7 +26,7 @@ fn one_config<V: VringT<dmn::Mem> + Clone + Send + Sync + 'static>(cfg: &Cfg, nq
         report::inconclusive(&format!("negotiate: {e}"));
         return;
     }
-    let kicks: Vec<EventFd> = (0..nq).map(|_| EventFd::new(libc::EFD_NONBLOCK).expect("eventfd")).collect();
+    let mut kicks: Vec<EventFd> = (0..nq).map(|_| EventFd::new(libc::EFD_NONBLOCK).expect("eventfd")).collect();
     let mut setup_ok = true;
     for q in 0..nq {
         setup_ok &= fe.set_vring_num(q, 1u16 << (q + 1)).is_ok();
@@ -47,6 +47,23 @@ fn one_config<V: VringT<dmn::Mem> + Clone + Send + Sync + 'static>(cfg: &Cfg, nq
     s.quiesce();
     s.be.st.lock().unwrap().events.clear();
     let mdesc = format!("{:x?}", masks);
+    // pass 0: the descriptors the rings were started with; pass 1: every running ring gets a new kick
+    // descriptor (SET_VRING_KICK on a started, enabled ring) - routing must be the same
+    for pass in 0..2 {
+    if pass == 1 {
+        let mut ok = true;
+        for q in 0..nq {
+            let e = EventFd::new(libc::EFD_NONBLOCK).expect("eventfd");
+            ok &= fe.set_vring_kick(q, &e).is_ok();
+            kicks[q] = e;
+        }
+        if !ok {
+            report::inconclusive("kick descriptor replacement failed");
+            return;
+        }
+        s.quiesce();
+    }
+    let kind = if pass == 0 { "kick" } else { "kick-after-descriptor-replacement" };
     for q in 0..nq {
         let owner = masks.iter().position(|m| m >> q & 1 == 1);
         let before = s.events().len();
@@ -56,13 +73,13 @@ fn one_config<V: VringT<dmn::Mem> + Clone + Send + Sync + 'static>(cfg: &Cfg, nq
         s.quiesce();
         let evs: Vec<dmn::Ev> = s.events()[before..].iter().filter(|e| (e.device_event as usize) <= nq).cloned().collect();
         report::eval(1);
-        report::distinct_str(&format!("{}:{nq}:{mdesc}:{q}", std::any::type_name::<V>().len()));
+        report::distinct_str(&format!("{}:{nq}:{mdesc}:{q}:{pass}", std::any::type_name::<V>().len()));
         report::count("kicks", 1);
         match owner {
             None => {
                 report::observe("queue-in-no-mask:never-dispatched", jo! {"masks" => mdesc.as_str(), "queue" => q, "events" => evs.len()});
                 if !evs.is_empty() {
-                    report::violation("C17:kick:dispatched-for-unowned-queue", jo! {"num_queues" => nq, "masks" => mdesc.as_str(), "queue" => q, "events" => format!("{evs:?}")}, cfg.replay(case));
+                    report::violation(&format!("C17:{kind}:dispatched-for-unowned-queue"), jo! {"num_queues" => nq, "masks" => mdesc.as_str(), "queue" => q, "events" => format!("{evs:?}")}, cfg.replay(case));
                 }
                 // drain our own counter so that later kicks are unambiguous
                 let _ = kicks[q].read();
@@ -89,14 +106,21 @@ fn one_config<V: VringT<dmn::Mem> + Clone + Send + Sync + 'static>(cfg: &Cfg, nq
                         "ring-slice-mismatch"
                     };
                     report::violation(
-                        &format!("C17:kick:{what}"),
+                        &format!("C17:{kind}:{what}"),
                         jo! {"num_queues" => nq, "masks" => mdesc.as_str(), "queue" => q, "expected_thread" => t, "expected_event_id" => rank, "expected_ring_size" => want_size,
                         "observed" => format!("{evs:?}"), "worker_tids" => s.workers.iter().map(|w| w.tid as i64).collect::<Vec<i64>>()},
                         cfg.replay(case),
                     );
+                    if pass == 0 {
+                        break;
+                    }
                 }
             }
         }
+    }
+    if report::violations_so_far() > 0 {
+        break;
+    }
     }
     report::sample(&format!("nq{nq}t{}", masks.len()), jo! {"num_queues" => nq, "masks" => mdesc.as_str(), "dispatch_log" => s.queue_events().iter().map(|e| jo!{"thread_id" => e.thread_id, "device_event" => e.device_event, "ring_size" => e.ring_size}).collect::<Vec<J>>()});
     drop(fe);
